@@ -228,8 +228,17 @@ def export_histories(ctx, name, spec_args, simulate=None, cap=None):
 def axes(i, jit_base=True):
     """configuration axes that must not matter, spread deterministically over the histories.  base = 0: JIT style
     init(env) - the base address is only known to relocate_to_base(); base = 1: init(env, base)"""
-    return {"arch": "a64" if i % 3 == 2 else "x64", "static": (i // 2) % 2, "logk": 1 + i % 2, "validate": (i // 3) % 2, "perturb": (i // 5) % 2,
-            "base": 0 if jit_base and i % 4 == 1 else 1}
+    return {"arch": "a64" if i % 3 == 2 else "x64", "static": STATIC_SIZES[(i // 2) % len(STATIC_SIZES)], "logk": 1 + i % 2, "validate": (i // 3) % 2,
+            "perturb": (i // 5) % 2, "base": 0 if jit_base and i % 4 == 1 else 1}
+
+
+# bytes of user-supplied (static) arena memory of the CodeHolders: none, tiny ones that every program spills out of into
+# heap blocks, one that only the large programs spill out of, one that nothing spills out of
+STATIC_SIZES = [0, 256, 24576, 1024, 0, 4096]
+
+
+def static_twin(sz):
+    return STATIC_SIZES[(STATIC_SIZES.index(sz) + 3) % len(STATIC_SIZES)]
 
 
 def validate_shards(ctx, tcfg, traces, tag, nshards, timeout):
@@ -295,7 +304,7 @@ def run(ctx):
     # ---- 1. design: abstract invariants + Reset/Reinit statements on the machine itself ----
     T4 = ["HLog", "HEh", "ELog", "EEh"]
     cfg = ctx.path("design.cfg")
-    open(cfg, "w").write(mc_cfg(2, "KindsABC", [1, 3, 4], 7 if q else 9, 2, False, T4, True, "XSpec", DESIGN_CHECKS))
+    open(cfg, "w").write(mc_cfg(2, "KindsABC", [1, 7, 8], 7 if q else 8, 2, False, T4, True, "XSpec", DESIGN_CHECKS))
     r = vlib.run_tlc(ctx, MC, cfg, workers=8, timeout=2400, heap="8g", tag="design")
     vlib.tlc_must_ok(ctx, r, "design (Lifecycle abstract invariants)")
     ctx.log(f"design: {r.distinct} abstract states / {r.generated} transitions, depth {r.depth}: AbstractInv, ResetIsInitM, ReinitIsFreshM hold")
@@ -309,22 +318,31 @@ def run(ctx):
     hs = []
     if q:
         plan = [("core", (1, "KindsABC", [1, 3, 5], 7, 2, False, [], False)),
+                ("core7", (1, "KindsABC", [1, 7, 8], 7, 2, False, [], False)),       # emitter left in a user section / unfinished emission
+                ("sec", (1, "KindsABC", [2, 7], 8, 2, False, [], False)),
+                ("open", (1, "KindsBC", [3, 4, 8], 7, 2, False, [], True)),
                 ("links", (2, "KindsABC", [1], 4, 1, True, T4, True)),
                 ("comp", (1, "KindsC1", [4, 5, 6], 8, 2, False, ["HEh"], False)),
                 ("two", (2, "KindsAC", [2, 6], 6, 2, False, ["HLog"], True))]
-        sims = [("simA", (2, "KindsABC", [1, 2, 3, 4, 5, 6], 16, 3, True, T4, True), 150),
-                ("simB", (2, "KindsCCA", [2, 4, 5, 6], 14, 2, False, ["HEh", "ELog"], True), 100)]
+        sims = [("simA", (2, "KindsABC", [1, 2, 3, 4, 5, 6, 7, 8], 16, 3, True, T4, True), 200),
+                ("simB", (2, "KindsCCA", [2, 4, 5, 6, 7, 8], 14, 2, False, ["HEh", "ELog"], True), 150)]
+        arena = ("arena", (1, "KindsAC", [1, 6], 7, 2, False, [], False))
     else:
         plan = [("core", (1, "KindsABC", [1, 3, 5], 9, 2, False, [], False)),
+                ("core7", (1, "KindsABC", [1, 7, 8], 8, 2, False, [], False)),
+                ("sec", (1, "KindsABC", [2, 7], 9, 2, False, [], True)),
+                ("open", (1, "KindsBC", [3, 4, 8], 8, 2, False, ["HEh"], True)),
                 ("core2", (1, "KindsBC", [2, 3, 4, 6], 8, 2, False, ["HLog"], False)),
-                ("links", (2, "KindsABC", [1], 5, 1, True, T4, True)),
-                ("comp", (1, "KindsC1", [4, 5, 6], 10, 3, False, ["HEh"], True)),
-                ("two", (2, "KindsAC", [2, 6], 7, 2, False, ["HLog"], True)),
+                ("links", (2, "KindsABC", [1, 7], 5, 1, True, T4, True)),
+                ("comp", (1, "KindsC1", [4, 5, 6, 8], 10, 3, False, ["HEh"], True)),
+                ("two", (2, "KindsAC", [2, 6, 7], 7, 2, False, ["HLog"], True)),
                 ("cca", (2, "KindsCCA", [1, 5], 6, 2, False, [], False))]
-        sims = [("simA", (2, "KindsABC", [1, 2, 3, 4, 5, 6], 24, 3, True, T4, True), 1500),
-                ("simB", (2, "KindsCCA", [2, 4, 5, 6], 20, 3, False, ["HEh", "ELog"], True), 800),
-                ("simC", (2, "KindsBCB", [1, 3, 5, 6], 20, 3, True, ["HLog", "EEh"], True), 800)]
-    caps = {"core": 700, "links": 600, "comp": 400, "two": 500} if q else {"core": 8000, "core2": 6000, "links": 8000, "comp": 4000, "two": 3500, "cca": 4000}
+        sims = [("simA", (2, "KindsABC", [1, 2, 3, 4, 5, 6, 7, 8], 24, 3, True, T4, True), 1500),
+                ("simB", (2, "KindsCCA", [2, 4, 5, 6, 7, 8], 20, 3, False, ["HEh", "ELog"], True), 800),
+                ("simC", (2, "KindsBCB", [1, 3, 5, 6, 7, 8], 20, 3, True, ["HLog", "EEh"], True), 800)]
+        arena = ("arena", (1, "KindsAC", [1, 6], 8, 2, False, [], False))
+    caps = {"core": 700, "core7": 1200, "sec": 900, "open": 600, "links": 600, "comp": 400, "two": 500} if q else \
+        {"core": 8000, "core7": 6000, "sec": 5000, "open": 4000, "core2": 5000, "links": 8000, "comp": 4000, "two": 3500, "cca": 4000}
     for name, args in plan:
         hs += export_histories(ctx, name, args, cap=caps.get(name))
     for name, args, n in sims:
@@ -333,12 +351,25 @@ def run(ctx):
         n0 = len(hs)
         hs = [(k, h) for k, h in hs if not ja_pattern(k, h)]
         ctx.log(f"known finding {KJA}: {n0 - len(hs)} histories that create a jump annotation in a Compiler holding stale ones are not replayed (they crash)")
+    # static arena memory x {soft, hard} reset x reinit x programs on both sides of the static block: every exported history
+    # that recycles a holder after a generate runs under EVERY static size (ASan leg) and with heap perturbation (plain leg)
+    ah = [(k, h) for k, h in export_histories(ctx, arena[0], arena[1])
+          if any(o[0] in ("ResetH", "Reinit") and any(p[0] == "Gen" for p in h[:j]) for j, o in enumerate(h))]
+    ah = thin(ah, 500 if q else 4000)
     scripts_asan, scripts_plain = [], []
+    for j, (kinds, h) in enumerate(ah):
+        for sz in (256, 1024, 4096, 24576):
+            a = dict(axes(j, jit_base=False), static=sz, arch="x64" if (j + sz // 256) % 2 else "a64")
+            scripts_asan.append({"cfg": dict(a, kinds=kinds, perturb=0), "ops": h})
+            if sz in (256, 4096):
+                scripts_plain.append({"cfg": dict(a, kinds=kinds, static=0, perturb=0), "ops": h})
+                scripts_plain.append({"cfg": dict(a, kinds=kinds, perturb=1), "ops": h})
+    ctx.log(f"arena family: {len(ah)} recycling histories x 4 static sizes -> {len(scripts_asan)} ASan + {len(scripts_plain)} plain executions")
     for i, (kinds, h) in enumerate(hs):
         a = axes(i, jit_base=KBASE not in known)
         scripts_asan.append({"cfg": dict(a, kinds=kinds), "ops": h})
         # twin under the complementary configuration (same shard => the ghost `expected` compares them)
-        b = dict(a, static=1 - a["static"], logk=3 - a["logk"], validate=1 - a["validate"], perturb=1)
+        b = dict(a, static=static_twin(a["static"]), logk=3 - a["logk"], validate=1 - a["validate"], perturb=1)
         if not q or i % 2 == 0:
             scripts_plain.append({"cfg": dict(a, kinds=kinds, perturb=0), "ops": h})
             scripts_plain.append({"cfg": dict(b, kinds=kinds), "ops": h})
@@ -379,7 +410,7 @@ def run(ctx):
                     if len(ctx.samples) < 3 and rec["e"] == "Seal" and json.dumps(rec["seq"]) not in seen:
                         seen.add(json.dumps(rec["seq"]))
                         ctx.add_sample({"source": tag, "event": {k: rec[k] for k in ("e", "h", "seq", "dig", "fresh", "r", "fr", "size") if k in rec}})
-        rej, n = validate_shards(ctx, tcfg, paths, tag, 6 if q else 10, 3000)
+        rej, n = validate_shards(ctx, tcfg, paths, tag, 10 if q else 12, 3000)
         nrec += n
         reported = set()
         for x in rej:
